@@ -398,8 +398,9 @@ def run_property(prop, tier, seed, jobs=None, only=None, verbose=False):
         dup = [i for i in set(ids) if ids.count(i) > 1][:3]
         raise symx.HarnessError('duplicate obligation ids %s' % dup)
     if tier == 'thorough':
+        symx.SOLVER_TIMEOUT_MS = 300000
         for o in obs:
-            o['wall'] = max(o.get('wall', 120), 600)         # thorough: larger sizes, same per-obligation path caps
+            o['wall'] = max(o.get('wall', 120), 900)         # thorough: larger sizes, same per-obligation path caps
     n_re = 12 if tier == 'quick' else 60
     plain = [o for o in obs if not o.get('twin') and not o.get('forkmode')]
     for o in rng.sample(plain, min(n_re, len(plain))):
